@@ -37,6 +37,7 @@ func checkC09(c *Check) {
 	c.Rule("C09.R1", "logout precedes everything: in Process every call of the OK writer and every call that can reach the token endpoint lies on the false edge of the logout-path test.", 4)
 	c.Rule("C09.R2", "remove-then-answer: with a session id present the logout answer is reachable only through RemoveSession for that id; once RemoveSession failed, only a denial built by the session-error constructor (no Location, no Set-Cookie) is reachable.", 3)
 	c.Rule("C09.R3", "answer shape: the logout answer redirects to config.GetLogout().GetRedirectUri() and expires the session cookie (timeout 0); with discovery, loadWellKnownConfig fills an empty logout redirect URI from end_session_endpoint or returns ErrMissingLogoutRedirectURI.", 4)
+	c.Rule("C09.R5", "the stores report a failed removal: the Redis store's RemoveSession returns the DEL command's error (nil only when Err() is nil), the memory store deletes unconditionally — so that `cannot be removed` reaches the handler as an error (R2).", 2)
 	c.Rule("C09.R4", "no resurrecting write: a store write that creates the session when absent (SetTokenResponse) must not follow, in one check, a blocking token-endpoint round trip that itself follows the read which justified the write — a logout answered during the round trip would be undone by the write. (Existence-conditional writes would satisfy the rule; the store interface offers none.)", 2)
 	if !requireModel(c, "C09.R1", m, "hw.", "cookie.builder", "sessionerrdeny") {
 		return
@@ -211,8 +212,94 @@ func checkC09(c *Check) {
 				}
 			}
 		}
+		// the discovered value only fills an EMPTY configured value
+		fillGuard := false
+		for _, b := range lw.Blocks {
+			for _, ins := range b.Instrs {
+				if st, ok := ins.(*ssa.Store); ok {
+					if fa, isF := st.Addr.(*ssa.FieldAddr); isF && fieldAddrID(fa) == pkgCfgOIDC+".LogoutConfig.RedirectUri" {
+						for cond, pol := range FactsOf(lw).At(st) {
+							if bo, isB := cond.(*ssa.BinOp); isB {
+								if gc, _, isC := asCall(bo.X); isC && isCallTo(gc, pkgCfgOIDC+".LogoutConfig.GetRedirectUri") {
+									if s2, isS := constString(bo.Y); isS && s2 == "" && ((bo.Op == token.EQL && pol) || (bo.Op == token.NEQ && !pol)) {
+										fillGuard = true
+									}
+								}
+							}
+						}
+					}
+				}
+			}
+		}
+		c.Obl(fillGuard, "C09.R3", "discovery/configured-value-wins", P.Pos(lw.Pos()), "the discovered end-session URI is used only when none is configured",
+			"discovery overwrites an explicitly configured logout redirect URI")
 		c.Obl(filled, "C09.R3", "discovery/filled", P.Pos(lw.Pos()), "an empty logout redirect URI is filled from end_session_endpoint", "discovery no longer fills the logout redirect URI from end_session_endpoint")
 		c.Obl(refused, "C09.R3", "discovery/refused", P.Pos(lw.Pos()), "a missing end_session_endpoint is refused with ErrMissingLogoutRedirectURI", "a discovery document without end_session_endpoint is accepted although logout is configured without a redirect URI")
+	}
+
+	// ---- R5: the stores report a failed removal
+	sr, smissing := getStoreRoles(P)
+	if len(smissing) == 0 {
+		for _, m2 := range sr.redisMethods {
+			if m2.Name() != "RemoveSession" || m2.Parent() != nil {
+				continue
+			}
+			dels := redisCalls(m2, "Del")
+			okRem := len(dels) == 1
+			why := "RemoveSession does not issue exactly one DEL"
+			if okRem {
+				del := dels[0].(*ssa.Call)
+				for _, r := range returnsOf(m2) {
+					for _, l := range Leaves(r.Results[0], leafOpts{noConcat: true}) {
+						// acceptable: the DEL command's Err() result itself, or nil under Err() == nil
+						if ec, _, isC := asCall(l); isC && strings.HasSuffix(funcID(calleeOf(ec).Obj), ".Err") && dataDeps(ec.Common().Args[0])[del] {
+							continue
+						}
+						if isNilConst(l) {
+							okNil := false
+							for cond, pol := range FactsOf(m2).At(r) {
+								if bo, isB := cond.(*ssa.BinOp); isB && isNilConst(bo.Y) {
+									if ec, _, isC := asCall(resolveCell(bo.X)); isC && strings.HasSuffix(funcID(calleeOf(ec).Obj), ".Err") && dataDeps(ec.Common().Args[0])[del] {
+										if (bo.Op == token.EQL && pol) || (bo.Op == token.NEQ && !pol) {
+											okNil = true
+										}
+									}
+								}
+							}
+							if okNil {
+								continue
+							}
+							okRem, why = false, "RemoveSession can return nil without the DEL command's Err() being known nil: a failed removal is reported as success"
+							continue
+						}
+						if isErrorType(l.Type()) {
+							continue // some other error value
+						}
+					}
+				}
+			}
+			c.Obl(okRem, "C09.R5", "redis-remove-reports-failure", P.Pos(m2.Pos()), "Redis RemoveSession returns the DEL command's error", why)
+		}
+		for _, m2 := range sr.memMethods {
+			if m2.Name() != "RemoveSession" || m2.Parent() != nil {
+				continue
+			}
+			// the delete is unconditional: every return passes it
+			okDel := true
+			for _, r := range returnsOf(m2) {
+				if !mustPassBefore(m2, r, func(i ssa.Instruction) bool {
+					cc, ok := i.(*ssa.Call)
+					if !ok {
+						return false
+					}
+					bi, isB := cc.Call.Value.(*ssa.Builtin)
+					return isB && bi.Name() == "delete"
+				}) {
+					okDel = false
+				}
+			}
+			c.Obl(okDel, "C09.R5", "memory-remove-unconditional", P.Pos(m2.Pos()), "memory RemoveSession deletes the key on every path", "memory RemoveSession can return without deleting the session")
+		}
 	}
 
 	// ---- R4
